@@ -519,6 +519,11 @@ class Vector(AutoSerialize):
             np.asarray(i) if isinstance(i, (list, np.ndarray)) else i for i in normalized
         )
 
+        # One index per fixed dimension: fewer (or more) would replace a nested list (or write
+        # into a cell array) instead of assigning a cell
+        if len(idx_converted) != len(self._shape):
+            raise ValueError(f"Expected {len(self._shape)} indices, got {len(idx_converted)}")
+
         # Check if we're doing slice‐ or array‐based (multi‐cell) indexing
         has_fancy = any(
             isinstance(i, slice) or (isinstance(i, np.ndarray) and i.size > 1)
